@@ -80,7 +80,7 @@ SPECS = {
     ensures final(self).inner.wf(), same_records(old(self).inner, final(self).inner), // [C05:lookup_leaves_records_unchanged]
         typed_map(old(self).inner.partitions@) ==> typed_map(final(self).inner.partitions@),
         exists|now: Instant| is_now(now) && #[trigger] lookup_result(r@, old(self).inner.partitions@, *name, qtype, now), // [C05:lookup_returns_stored_records_with_time_left]
-        typed_map(old(self).inner.partitions@) && qtype is Record ==> forall|x: int| 0 <= x < r@.len() ==> spec_rtype_of((#[trigger] r@[x]).rtype_with_data) == qtype->Record_0, // [C10:typed_lookup_returns_records_of_the_asked_type]
+        typed_map(old(self).inner.partitions@) ==> forall|x: int| 0 <= x < r@.len() ==> qmatch(spec_rtype_of((#[trigger] r@[x]).rtype_with_data), qtype), // [C10:typed_lookup_returns_records_of_the_asked_type]
         forall|x: int| 0 <= x < r@.len() ==> (#[trigger] r@[x]).name == *name, // [C05,C10:lookup_returns_records_owned_by_the_asked_name]""",
         "loops": {"0": {"kw": "for", "spec": """                        invariant
                             values_of(recs_g, itv__.seq()),
@@ -98,9 +98,9 @@ SPECS = {
     }
     if typed_map(old(self).inner.partitions@) {
         lemma_typed_same(old(self).inner, self.inner);
-        if let QueryType::Record(t) = qtype {
-            let parts = old(self).inner.partitions@;
-            assert forall|x: int| 0 <= x < rrs@.len() implies spec_rtype_of((#[trigger] rrs@[x]).rtype_with_data) == t by {
+        let parts = old(self).inner.partitions@;
+        assert forall|x: int| 0 <= x < rrs@.len() implies qmatch(spec_rtype_of((#[trigger] rrs@[x]).rtype_with_data), qtype) by {
+            if let QueryType::Record(t) = qtype {
                 assert(parts.contains_key(*name) && has_tuple(parts[*name].records@, t, x));
                 assert(rrs@[x] == rr_of(*name, parts[*name].records@[t]@[x], now));
             }
@@ -151,11 +151,11 @@ assert(idx + 1 == itv__.seq().len() ==> any_cached(rrs@, recs_g, *name, now)) by
             && r@ == all.filter(positive_ttl()), // [C05:serves_exactly_the_stored_records_with_time_left]
         forall|j: int| 0 <= j < r@.len() ==> (#[trigger] r@[j]).name == *name, // [C05,C10:lookup_returns_records_owned_by_the_asked_name]
         typed_map(old(self).inner.partitions@) ==> typed_map(final(self).inner.partitions@),
-        typed_map(old(self).inner.partitions@) && qtype is Record ==> forall|x: int| 0 <= x < r@.len() ==> spec_rtype_of((#[trigger] r@[x]).rtype_with_data) == qtype->Record_0, // [C10:typed_lookup_returns_records_of_the_asked_type]""",
+        typed_map(old(self).inner.partitions@) ==> forall|x: int| 0 <= x < r@.len() ==> qmatch(spec_rtype_of((#[trigger] r@[x]).rtype_with_data), qtype), // [C10:typed_lookup_returns_records_of_the_asked_type]""",
         "anchors": [{"after": "let mut rrs = self.get_without_checking_expiration(name, qtype);", "proof": "let ghost all__ = rrs@;"},
                     {"after": "rrs.retain(|rr| rr.ttl > 0);", "proof": """proof {
-    if typed_map(old(self).inner.partitions@) && qtype is Record {
-        assert forall|x: int| 0 <= x < rrs@.len() implies spec_rtype_of((#[trigger] rrs@[x]).rtype_with_data) == qtype->Record_0 by {
+    if typed_map(old(self).inner.partitions@) {
+        assert forall|x: int| 0 <= x < rrs@.len() implies qmatch(spec_rtype_of((#[trigger] rrs@[x]).rtype_with_data), qtype) by {
             assert(all__.contains(rrs@[x]));
             let w = choose|w: int| 0 <= w < all__.len() && all__[w] == rrs@[x];
         }
@@ -324,6 +324,7 @@ def build(G):
     G.item(C, "struct", "Partition", drop_derive=("Clone", "Debug", "Eq", "PartialEq"), pre_attrs="#[verifier::reject_recursive_types(K)]")
     G.item(C, "struct", "Cache", drop_derive=("Clone", "Debug"))
     G.raw(ALL_NAMED_RS, ("spec", "all_named"))
+    G.raw(QMATCH_RS, ("spec", "qmatch"))
     G.file(os.path.join(VERIF, "units", "cache.spec.rs"))
     specs = adapt(SPECS, C)
     for f in ("with_desired_size", "get_partition_without_checking_expiration", "get_without_checking_expiration", "upsert", "remove_expired", "prune", "remove_expired_step", "remove_least_recently_used"):
@@ -354,7 +355,7 @@ impl LockedCache {
     pub fn get(&mut self, name: &DomainName, qtype: QueryType) -> (r: Vec<ResourceRecord>)
         ensures all_named(r@, *name), forall|j: int| 0 <= j < r@.len() ==> (#[trigger] r@[j]).ttl > 0,
             // the Cache behind the lock satisfies wf and typed_map (established by Cache::new, kept by every Cache operation: lock invariant)
-            qtype is Record ==> forall|x: int| 0 <= x < r@.len() ==> spec_rtype_of((#[trigger] r@[x]).rtype_with_data) == qtype->Record_0,
+            forall|x: int| 0 <= x < r@.len() ==> qmatch(spec_rtype_of((#[trigger] r@[x]).rtype_with_data), qtype),
     { unimplemented!() }
 }
 #[verifier::external_body]
@@ -364,7 +365,7 @@ fn shim_lock_cache(c: &SharedCache) -> (r: LockedCache) { unimplemented!() }""",
     specs["SharedCache::insert_all"] = {"props": ["C05"], "contract": "", "rewrites": r9}
     specs["SharedCache::get"] = {"props": ["C05", "C10"], "rewrites": [("R9", r"self\.cache\s*\.lock\(\)\s*\.expect\(MUTEX_POISON_MESSAGE\)", "shim_lock_cache(self)")], "contract": """    ensures all_named(r@, *name), // [C05,C10:lookup_returns_records_owned_by_the_asked_name]
         forall|j: int| 0 <= j < r@.len() ==> (#[trigger] r@[j]).ttl > 0, // [C05:never_serves_a_record_with_no_time_left]
-        qtype is Record ==> forall|x: int| 0 <= x < r@.len() ==> spec_rtype_of((#[trigger] r@[x]).rtype_with_data) == qtype->Record_0, // [C10:typed_lookup_returns_records_of_the_asked_type]"""}
+        forall|x: int| 0 <= x < r@.len() ==> qmatch(spec_rtype_of((#[trigger] r@[x]).rtype_with_data), qtype), // [C10:typed_lookup_returns_records_of_the_asked_type]"""}
     G.impl(C, "SharedCache", ["get", "insert", "insert_all"], "SharedCache::", specs)
     end(G)
 
